@@ -47,19 +47,21 @@ fn usage() -> ! {
 }
 
 fn default_runs(prop: Prop, tier: Tier) -> u64 {
-    let q = match prop {
-        Prop::C01 => 120_000,
-        Prop::C06 => 300_000,
-        Prop::C07 => 300_000,
-        Prop::C08 => 400_000,
-        Prop::C09 => 300_000,
-        Prop::C10 => 300_000,
-        Prop::C16 => 150_000,
-        _ => 100_000,
+    // quick: ~10-40 s on 16 threads; thorough: as deep as is useful (minutes per property)
+    let (q, t) = match prop {
+        Prop::C01 => (120_000, 4_000_000),
+        Prop::C02 => (1_000_000, 30_000_000),
+        Prop::C03 => (1_000_000, 30_000_000),
+        Prop::C06 => (1_500_000, 40_000_000),
+        Prop::C07 => (2_000_000, 50_000_000),
+        Prop::C08 => (3_000_000, 50_000_000),
+        Prop::C09 => (3_000_000, 50_000_000),
+        Prop::C10 => (1_000_000, 30_000_000),
+        Prop::C16 => (400_000, 12_000_000),
     };
     match tier {
         Tier::Quick => q,
-        Tier::Thorough => q * 40,
+        Tier::Thorough => t,
     }
 }
 
